@@ -271,5 +271,17 @@ func parseDuration(s *string, def time.Duration) (time.Duration, error) {
 	}
 
 	// Use the user's value, but validate it per the RFC.
-	return time.ParseDuration(*s)
+	d, err := time.ParseDuration(*s)
+	if err != nil {
+		return 0, err
+	}
+
+	// Durations are advertised as unsigned 32-bit (or smaller) quantities of
+	// seconds, so they must never be negative or exceed the infinite value.
+	if d < 0 || d > ndp.Infinity {
+		return 0, fmt.Errorf("duration %s must be between 0 and %d seconds, or infinite",
+			*s, int64(ndp.Infinity.Seconds()))
+	}
+
+	return d, nil
 }
